@@ -71,6 +71,9 @@ def queries(tier):
                 continue
             qs.append(Query("msgq-%s-cap%d" % (op, cap), "c18/msgq_step.c", tus=MTU, env=MENV, defs={"CAP": cap, "OP": c},
                             unwind=30, params={"structure": "msgq", "op": op, "cap": cap}))
+            if op in ("aioget", "aioput"):
+                qs.append(Query("msgq-%s-nonblock-cap%d" % (op, cap), "c18/msgq_step.c", tus=MTU, env=MENV, defs={"CAP": cap, "OP": c, "NB": 1},
+                                unwind=30, params={"structure": "msgq", "op": op + " (zero timeout)", "cap": cap}))
     return qs
 
 MANIFEST = {
